@@ -1,0 +1,68 @@
+//go:build verif
+
+package logqlengine
+
+import (
+	"slices"
+	"strconv"
+	"strings"
+
+	"github.com/tdakkota/docker-logql/internal/logql"
+	"github.com/tdakkota/docker-logql/internal/lokiapi"
+)
+
+// verifEnabled reports whether verification hooks are compiled in.
+const verifEnabled = true
+
+// VerifMapOrder, if set, decides the order in which label keys taken from
+// a map are visited. It receives the keys sorted and returns them in the
+// order to use. Set by the deterministic simulation harness only.
+var VerifMapOrder func(keys []logql.Label) []logql.Label
+
+// VerifStreamOrder, if set, decides the order of streams in a log query
+// result. It receives the number of streams and returns a permutation of
+// [0, n) applied to the streams sorted by their label rendering.
+// Set by the deterministic simulation harness only.
+var VerifStreamOrder func(n int) []int
+
+func verifOrder(keys []logql.Label) []logql.Label {
+	if VerifMapOrder == nil {
+		return keys
+	}
+	slices.Sort(keys)
+	return VerifMapOrder(keys)
+}
+
+func verifOrderStreams(s lokiapi.Streams) lokiapi.Streams {
+	if VerifStreamOrder == nil {
+		return s
+	}
+	type keyed struct {
+		key    string
+		stream lokiapi.Stream
+	}
+	sorted := make([]keyed, 0, len(s))
+	for _, st := range s {
+		names := make([]string, 0, len(st.Stream.Value))
+		for k := range st.Stream.Value {
+			names = append(names, k)
+		}
+		slices.Sort(names)
+		var sb strings.Builder
+		for _, k := range names {
+			sb.WriteString(strconv.Quote(k))
+			sb.WriteByte('=')
+			sb.WriteString(strconv.Quote(st.Stream.Value[k]))
+			sb.WriteByte(',')
+		}
+		sorted = append(sorted, keyed{key: sb.String(), stream: st})
+	}
+	slices.SortStableFunc(sorted, func(a, b keyed) int {
+		return strings.Compare(a.key, b.key)
+	})
+	out := make(lokiapi.Streams, 0, len(s))
+	for _, j := range VerifStreamOrder(len(sorted)) {
+		out = append(out, sorted[j].stream)
+	}
+	return out
+}
